@@ -270,6 +270,10 @@ Section Pass.
       reads the referenced ObjectSlices (one Get each; a missing slice is an error). *)
   Variable slices : N -> option (list pobj).
   Variable sliceaware : bool.
+  (** The variant of the "slow cache" test of the new-revision reconciler: false = as it is (the name holder's
+      revision must be at least the latest listed one), true = repaired (a holder that has not reported its
+      revision yet is the ObjectSet this deployment has just created). *)
+  Variable rev0ok : bool.
 
   Inductive fk := FGo | FErr | FLost.
   Definition fault_now (st : pst) : fk :=
@@ -401,7 +405,7 @@ Section Pass.
 
   (** The "slow cache" test (:66-77) *)
   Definition adoptable (d : depl) (prev : list dset) (c : dset) : bool :=
-    negb (is_archived c) && (latest_revision prev <=? srev c)%Z &&
+    negb (is_archived c) && ((rev0ok && Z.eqb (srev c) 0) || (latest_revision prev <=? srev c)%Z) &&
     negb (ds_ctrl c =? 0) && (ds_ctrl c =? oi_uid (d_id d)) &&
     phases_eqb (d_phases d) (os_phases (ds_set c)).
 
@@ -601,6 +605,7 @@ Section Run.
   Variable hash : N -> option N -> N.
   Variable slices : N -> option (list pobj).
   Variable sliceaware : bool.
+  Variable rev0ok : bool.
 
   Definition rev_step (w : dworld) (n : N) : dworld :=
     let sw := to_sworld w in
@@ -621,7 +626,7 @@ Section Run.
                  (negb (dg =? d_digest (dw_dep w)) || negb (phases_eqb phs (d_phases (dw_dep w))))
     | SPause b => edit_dep w (fun d => set_paused d b) (negb (Bool.eqb b (d_paused (dw_dep w))))
     | SLimit l => edit_dep w (fun d => set_limit d l) (negb (option_eqb Z.eqb l (d_limit (dw_dep w))))
-    | SDep stale fault => let '(w', _, _) := dep_pass hash fault slices sliceaware stale w in w'
+    | SDep stale fault => let '(w', _, _) := dep_pass hash fault slices sliceaware rev0ok stale w in w'
     | SSet force n =>
         let '(sw', _, _) := objectset_pass force (to_sworld w) (set_kind w) (oi_ns (d_id (dw_dep w))) n in of_sworld w sw'
     | SRev n => rev_step w n
